@@ -75,11 +75,14 @@ type Store struct {
 	LogWrites bool
 	Log       [][]WOp // physical writes in order (only when LogWrites)
 
-	NCalls     int          // number of fault-eligible calls made so far
-	FailAt     map[int]bool // call indices (0-based, in NCalls order) that fail with ErrInjected
-	Trace      []Call       // filled when TraceCalls
-	TraceCalls bool
-	Counts     [nKinds]int
+	NCalls int          // number of fault-eligible calls made so far
+	FailAt map[int]bool // call indices (0-based, in NCalls order) that fail with ErrInjected
+	// FailKindNth: fail the n-th call (0-based) of a kind; robust against a different interleaving of the
+	// calls of concurrent goroutines of the code under test (the importer's background batch write).
+	FailKindNth map[CallKind]int
+	Trace       []Call // filled when TraceCalls
+	TraceCalls  bool
+	Counts      [nKinds]int
 
 	// LastFaultStack holds the call stack (program counters) of the most recent injected fault.
 	LastFaultStack []uintptr
@@ -193,6 +196,9 @@ func (s *Store) call(kind CallKind, key []byte) error {
 		s.Trace = append(s.Trace, Call{kind, cp(key)})
 	}
 	fail := s.FailAt != nil && s.FailAt[idx]
+	if n, ok := s.FailKindNth[kind]; ok && s.Counts[kind]-1 == n {
+		fail = true
+	}
 	if fail {
 		pcs := make([]uintptr, 48)
 		s.LastFaultStack = pcs[:runtime.Callers(2, pcs)]
